@@ -818,6 +818,10 @@ void instance_t::include_directive(char * line)
           context_stack.get_current().journal = journal;
           context_stack.get_current().master  = master;
           context_stack.get_current().scope   = scope;
+
+          // warnings about undeclared names are located by the journal's
+          // current context, which must follow the file being read
+          journal->current_context = &context_stack.get_current();
           try {
             instance_t instance(context_stack, context_stack.get_current(),
                                 this, no_assertions, hash_type);
@@ -830,6 +834,7 @@ void instance_t::include_directive(char * line)
             sequence += context_stack.get_current().sequence;
 
             context_stack.pop();
+            journal->current_context = &context;
             throw;
           }
 
@@ -838,6 +843,7 @@ void instance_t::include_directive(char * line)
           sequence += context_stack.get_current().sequence;
 
           context_stack.pop();
+          journal->current_context = &context;
 
           files_found = true;
         }
